@@ -26,6 +26,10 @@ class MonoidalAdapter:
     def id(self, t):
         return self.m.Id(self.ty(t))
 
+    def construct(self, real, dom, cod):
+        """the public constructor on the boxes and offsets of a real diagram, with the given types"""
+        return self.m.Diagram(dom, cod, real.boxes, real.offsets)
+
     def build(self, d, how=0):
         """how = 0: through the constructor (type scan); 1: by composing whiskered boxes."""
         if how == 0:
@@ -58,3 +62,54 @@ class RigidAdapter(MonoidalAdapter):
         if kind == 3:
             return self.m.Cap(self.ty(b["cod"][:1]), self.ty(b["cod"][1:]))
         return super().box(b)
+
+
+class CatAdapter:
+    """cat.Arrow: objects are one-atom types, arrows are diagrams with all offsets zero."""
+    cls = "cat"
+    ATOMS = {1: "x", 2: "y", 3: "z", 4: "w"}
+    OPS = {"gen", "ctor", "retype", "then", "thenSelf", "dagger", "slice", "index"}
+
+    def __init__(self):
+        from discopy import cat
+        self.m = cat
+        self.names = Names({"Ob:%r" % v: k for k, v in self.ATOMS.items()})
+
+    def ob(self, a):
+        return self.m.Ob(self.ATOMS[a[0]])
+
+    def ty(self, t):
+        if len(t) != 1:
+            raise ValueError("objects of the free category are one-atom types")
+        return self.ob(t[0])
+
+    def box(self, b):
+        if b["dg"]:
+            return self.m.Box("b%d" % b["id"], self.ty(b["cod"]), self.ty(b["dom"])).dagger()
+        return self.m.Box("b%d" % b["id"], self.ty(b["dom"]), self.ty(b["cod"]))
+
+    def id(self, t):
+        return self.m.Id(self.ty(t))
+
+    def construct(self, real, dom, cod):
+        return self.m.Arrow(dom, cod, real.boxes)
+
+    def build(self, d, how=0):
+        if how == 0:
+            return self.m.Arrow(self.ty(d["dom"]), self.ty(d["cod"]), [self.box(b) for b in d["boxes"]])
+        out = self.id(d["dom"])
+        for b in d["boxes"]:
+            out = out >> self.box(b)
+        return out
+
+    def proj(self, a):
+        """an arrow as a diagram on one wire (the layer view is the trivial one: nothing left or right of a box)"""
+        from harness.project import proj_atom, box_id
+
+        def t(o):
+            return [proj_atom(o, self.names)]
+        boxes = [{"id": box_id(b, self.names), "kind": 0, "dom": t(b.dom), "cod": t(b.cod),
+                  "dg": int(bool(getattr(b, "_dagger", False)))} for b in a.boxes]
+        return {"dom": t(a.dom), "cod": t(a.cod), "boxes": boxes, "offs": [0] * len(boxes),
+                "ldom": t(a.dom), "lcod": t(a.cod),
+                "layers": [{"left": [], "bdom": b["dom"], "bcod": b["cod"], "right": []} for b in boxes]}
